@@ -61,6 +61,10 @@ type Config struct {
 	DB          dbm.DB // nil: fresh MemDB
 	Yield       func() // called at every cctp store access (C18 interleaving widening); may be nil
 	SkipInit    bool   // re-open an existing DB (restart)
+	// InitialHeight (0 = 1) and Header vary what a block carries besides its transactions (height, time,
+	// proposer): none of it may influence the module.
+	InitialHeight int64
+	Header        func(req *abci.RequestFinalizeBlock)
 	// ExtraUUSDC: optional additional supply headroom accounts etc. (unused)
 }
 
@@ -204,7 +208,11 @@ func New(cfg Config) (c *Chain, err error) {
 			c = nil
 		}
 	}()
-	if _, err := app.InitChain(&abci.RequestInitChain{ChainId: "cctpsim-1", InitialHeight: 1}); err != nil {
+	ih := cfg.InitialHeight
+	if ih <= 0 {
+		ih = 1
+	}
+	if _, err := app.InitChain(&abci.RequestInitChain{ChainId: "cctpsim-1", InitialHeight: ih}); err != nil {
 		return nil, err
 	}
 	if c.initErr != nil {
@@ -348,7 +356,14 @@ func BuildRawTx(anys ...*codectypes.Any) ([]byte, error) {
 func (c *Chain) DeliverBlock(txs [][]byte) ([]TxResult, error) {
 	h := c.App.LastBlockHeight() + 1
 	c.Store.BeginBlock(h)
-	res, err := c.App.FinalizeBlock(&abci.RequestFinalizeBlock{Height: h, Txs: txs})
+	if c.Cfg.InitialHeight > 1 && c.App.LastBlockHeight() == 0 {
+		h = c.Cfg.InitialHeight
+	}
+	req := &abci.RequestFinalizeBlock{Height: h, Txs: txs}
+	if c.Cfg.Header != nil {
+		c.Cfg.Header(req)
+	}
+	res, err := c.App.FinalizeBlock(req)
 	if err != nil {
 		return nil, err
 	}
